@@ -761,6 +761,41 @@ func ruleRefLoops(c *eng.Ctx) {
 			}
 		})
 		ok := look != nil && ins
+		if !ok {
+			// the test-and-insert may be a helper called inside the loop with the set as argument
+			eng.Instrs(fn, false, func(in ssa.Instruction) {
+				call, isCall := in.(ssa.CallInstruction)
+				if !isCall || !eng.InLoop(in.Block()) {
+					return
+				}
+				h := call.Common().StaticCallee()
+				if h == nil || h.Blocks == nil || !eng.InModule(h) {
+					return
+				}
+				for i, a := range call.Common().Args {
+					if _, isMk := a.(*ssa.MakeMap); !isMk || i >= len(h.Params) {
+						continue
+					}
+					par := ssa.Value(h.Params[i])
+					l2, i2 := false, false
+					eng.Instrs(h, false, func(in2 ssa.Instruction) {
+						switch x := in2.(type) {
+						case *ssa.Lookup:
+							if x.X == par {
+								l2 = true
+							}
+						case *ssa.MapUpdate:
+							if x.Map == par {
+								i2 = true
+							}
+						}
+					})
+					if l2 && i2 {
+						ok = true
+					}
+				}
+			})
+		}
 		c.Check(ok, R, "core.(*XRefParser).ParseAllXRefs#visited", fn.Pos(), "a visited set of /Prev offsets is tested and filled inside the loop", "the /Prev chain is followed without remembering visited offsets: a /Prev cycle loops forever")
 	}
 }
